@@ -57,6 +57,12 @@ def confirm(d, dest_rel=None):
                 dest = dest_rel
                 if dest is None:
                     v = mapping.get(f, "") if isinstance(mapping, dict) else ""
+                    if v == f or v.endswith("/" + f):
+                        # the mapping is the path of the file relative to the repository root
+                        dest = os.path.dirname(v) or "."
+                        os.makedirs(os.path.join(wt, dest), exist_ok=True)
+                        shutil.copy(os.path.join(d, f), os.path.join(wt, dest, f))
+                        continue
                     mm = re.search(r"(plugin/\w+|codec|socket|utils|xfer/\w+|proto/\w+|mixer/[\w/]+)", v)
                     dest = mm.group(1) if mm else None
                 if dest is None:
